@@ -1,4 +1,4 @@
-\* thorough: 3 contracts, 2 groups, stack depth <= 3, <= 2 table changes per transaction, 2 transactions (same / next block), leaf frames without ReadStates; no try blocks
+\* quick: TWO transactions (same block / next block), depth <= 1, <= 1 change per transaction
 SPECIFICATION ISpec
 CONSTANTS
   Universe = "quick"
@@ -6,10 +6,10 @@ CONSTANTS
   Contracts <- MCContracts
   Groups <- MCGroups
   InitTables <- MCInitTables
-  MaxDepth = 3
-  MaxChanges = 2
+  MaxDepth = 1
+  MaxChanges = 1
   MaxTx = 2
-  WithTry = FALSE
+  WithTry = TRUE
   WithNoRS = TRUE
 INVARIANTS ImplAgrees Coherent
 
